@@ -15,8 +15,10 @@ import (
 	"os"
 	"runtime"
 	"sort"
+	"strings"
 	"sync"
 	"sync/atomic"
+	"time"
 
 	vdrapi "github.com/trustbloc/did-go/vdr/api"
 
@@ -159,7 +161,18 @@ func registryTrace(args []string) {
 		}
 
 		close(start)
-		wg.Wait()
+
+		// every call returns (a reader that re-acquires the lock it holds while a writer waits never does)
+		finished := make(chan struct{})
+
+		go func() { wg.Wait(); close(finished) }()
+
+		select {
+		case <-finished:
+		case <-time.After(60 * time.Second):
+			fmt.Fprintf(os.Stderr, "fatal error: registry history %d (kind %d): calls on github.com/trustbloc/sidetree-go/pkg/vdr/sidetreelongform/dochandler/protocolversion/clientregistry.(*Registry) / nsprovider.(*Provider) did not return within 60 s (deadlock)\n", h, kind)
+			os.Exit(3)
+		}
 
 		var all []regEvent
 		for _, e := range events {
@@ -296,175 +309,183 @@ func concurrentRun(args []string) {
 
 	conc := newConcretizer(seed)
 	cenv := newComposerEnv(seed)
-	p := testProtocol(1)
-	parser := operationparser.New(p)
-	applier := operationapplier.New(p, parser, doccomposer.New())
-	composer := doccomposer.New()
-
-	handler, err := dochandler.New("did:ion")
-	if err != nil {
-		fatalf("%v", err)
-	}
-
-	vdr, err := sidetreelongform.New()
-	if err != nil {
-		fatalf("%v", err)
-	}
-
 	pool := newKeyPool(seed)
 
-	var jobs []job
+	// build makes FRESH shared instances and the jobs that use them: the reference results come from one set
+	// (used sequentially), every concurrent round gets a set of its own whose very first uses overlap
+	build := func() []job {
+		p := testProtocol(1)
+		parser := operationparser.New(p)
+		applier := operationapplier.New(p, parser, doccomposer.New())
+		composer := doccomposer.New()
 
-	errStr := func(e error) string {
-		if e != nil {
-			return "error"
+		handler, err := dochandler.New("did:ion")
+		if err != nil {
+			fatalf("%v", err)
 		}
 
-		return ""
-	}
-
-	// distinct requests, states, documents
-	for i := 1; i <= 6; i++ {
-		i := i
-		o := ROp{Type: []string{"create", "update", "recover", "deactivate"}[i%4], Wf: "ok", Reveal: "ok", Sig: "ok", Dhash: true, Dv: "ok", Sfx: true,
-			Delta: Delta{"addkey", i}, T: uint64(i), N: uint64(i), Nu: i, Nr: i + 10, Ao: i, Kt: allKTs[i%5], H: 256, Nuv: "norm", Ref: i, Eq: i}
-		op := conc.Build(&o)
-
-		jobs = append(jobs, job{fmt.Sprintf("Parser.Parse#%d", i), func() interface{} {
-			res, e := parser.Parse("did:sidetree", op.OperationRequest)
-			return []interface{}{res, errStr(e)}
-		}})
-
-		rm := &protocol.ResolutionModel{}
-		if o.Type != "create" {
-			rm = &protocol.ResolutionModel{Doc: document.Document{"publicKey": []interface{}{cenv.keyJSON(CEnt{i, 1})}}, UpdateCommitment: "u", RecoveryCommitment: "r"}
+		vdr, err := sidetreelongform.New()
+		if err != nil {
+			fatalf("%v", err)
 		}
 
-		jobs = append(jobs, job{fmt.Sprintf("Applier.Apply#%d", i), func() interface{} {
-			res, e := applier.Apply(op, rm)
-			return []interface{}{res, errStr(e)}
-		}})
+		var jobs []job
 
-		doc := document.Document{"publicKey": []interface{}{cenv.keyJSON(CEnt{i, 1}), cenv.keyJSON(CEnt{i + 1, 2})}, "service": []interface{}{cenv.svcJSON(CEnt{i, 2})},
-			"alsoKnownAs": []interface{}{uriOf(i % 4)}}
-
-		var patches []patch.Patch
-
-		raw, _ := json.Marshal([]interface{}{cenv.patchJSON(&CPatch{A: "add-public-keys", Ents: []CEnt{{i + 2, 1}}}),
-			cenv.patchJSON(&CPatch{A: "remove-services", IDs: []int{i}}),
-			jsonPatch(map[string]interface{}{"op": "add", "path": "/o1", "value": i})})
-		_ = json.Unmarshal(raw, &patches)
-
-		jobs = append(jobs, job{fmt.Sprintf("Composer.ApplyPatches#%d", i), func() interface{} {
-			res, e := composer.ApplyPatches(deepCopyGeneric(map[string]interface{}(doc)).(map[string]interface{}), patches)
-			return []interface{}{res, errStr(e)}
-		}})
-	}
-
-	// transformers with 0..6 method contexts, with and without @base, shared by all goroutines
-	for nctx := 0; nctx <= 6; nctx++ {
-		for _, base := range []bool{false, true} {
-			var ctxs []string
-			for c := 0; c < nctx; c++ {
-				ctxs = append(ctxs, fmt.Sprintf("https://example.com/ctx/%d", c))
+		errStr := func(e error) string {
+			if e != nil {
+				return "error"
 			}
 
-			tr := didtransformer.New(didtransformer.WithMethodContext(ctxs), didtransformer.WithBase(base),
-				didtransformer.WithIncludePublishedOperations(true), didtransformer.WithIncludeUnpublishedOperations(true))
-			dtr := doctransformer.New(doctransformer.WithIncludePublishedOperations(true))
+			return ""
+		}
 
-			for i := 1; i <= 4; i++ {
-				i := i
-				keyType := []string{"JsonWebKey2020", "EcdsaSecp256k1VerificationKey2019", "Bls12381G2Key2020", "JsonWebKey2020"}[i-1]
-				k := cenv.keyJSON(CEnt{i, 1})
-				k["type"] = keyType
+		// distinct requests, states, documents
+		for i := 1; i <= 6; i++ {
+			i := i
+			o := ROp{Type: []string{"create", "update", "recover", "deactivate"}[i%4], Wf: "ok", Reveal: "ok", Sig: "ok", Dhash: true, Dv: "ok", Sfx: true,
+				Delta: Delta{"addkey", i}, T: uint64(i), N: uint64(i), Nu: i, Nr: i + 10, Ao: i, Kt: allKTs[i%5], H: 256, Nuv: "norm", Ref: i, Eq: i}
+			op := conc.Build(&o)
 
-				doc := document.Document{"publicKey": []interface{}{k}, "service": []interface{}{cenv.svcJSON(CEnt{i, 1})}}
-				if i == 4 {
-					doc = document.Document{"service": []interface{}{cenv.svcJSON(CEnt{i, 1})}}
+			jobs = append(jobs, job{fmt.Sprintf("Parser.Parse#%d", i), func() interface{} {
+				res, e := parser.Parse("did:sidetree", op.OperationRequest)
+				return []interface{}{res, errStr(e)}
+			}})
+
+			rm := &protocol.ResolutionModel{}
+			if o.Type != "create" {
+				rm = &protocol.ResolutionModel{Doc: document.Document{"publicKey": []interface{}{cenv.keyJSON(CEnt{i, 1})}}, UpdateCommitment: "u", RecoveryCommitment: "r"}
+			}
+
+			jobs = append(jobs, job{fmt.Sprintf("Applier.Apply#%d", i), func() interface{} {
+				res, e := applier.Apply(op, rm)
+				return []interface{}{res, errStr(e)}
+			}})
+
+			doc := document.Document{"publicKey": []interface{}{cenv.keyJSON(CEnt{i, 1}), cenv.keyJSON(CEnt{i + 1, 2})}, "service": []interface{}{cenv.svcJSON(CEnt{i, 2})},
+				"alsoKnownAs": []interface{}{uriOf(i % 4)}}
+
+			var patches []patch.Patch
+
+			raw, _ := json.Marshal([]interface{}{cenv.patchJSON(&CPatch{A: "add-public-keys", Ents: []CEnt{{i + 2, 1}}}),
+				cenv.patchJSON(&CPatch{A: "remove-services", IDs: []int{i}}),
+				jsonPatch(map[string]interface{}{"op": "add", "path": "/o1", "value": i})})
+			_ = json.Unmarshal(raw, &patches)
+
+			jobs = append(jobs, job{fmt.Sprintf("Composer.ApplyPatches#%d", i), func() interface{} {
+				res, e := composer.ApplyPatches(deepCopyGeneric(map[string]interface{}(doc)).(map[string]interface{}), patches)
+				return []interface{}{res, errStr(e)}
+			}})
+		}
+
+		// transformers with 0..6 method contexts, with and without @base, shared by all goroutines
+		for nctx := 0; nctx <= 6; nctx++ {
+			for _, base := range []bool{false, true} {
+				var ctxs []string
+				for c := 0; c < nctx; c++ {
+					ctxs = append(ctxs, fmt.Sprintf("https://example.com/ctx/%d", c))
 				}
 
-				ops := []*operation.AnchoredOperation{{Type: "update", TransactionTime: uint64(3 - i%3), TransactionNumber: uint64(i), CanonicalReference: fmt.Sprint("c", i)},
-					{Type: "create", TransactionTime: 1, TransactionNumber: uint64(5 - i), CanonicalReference: "c0"}}
+				tr := didtransformer.New(didtransformer.WithMethodContext(ctxs), didtransformer.WithBase(base),
+					didtransformer.WithIncludePublishedOperations(true), didtransformer.WithIncludeUnpublishedOperations(true))
+				dtr := doctransformer.New(doctransformer.WithIncludePublishedOperations(true))
 
-				did := fmt.Sprintf("did:sidetree:doc%d", i)
+				for i := 1; i <= 4; i++ {
+					i := i
+					keyType := []string{"JsonWebKey2020", "EcdsaSecp256k1VerificationKey2019", "Bls12381G2Key2020", "JsonWebKey2020"}[i-1]
+					k := cenv.keyJSON(CEnt{i, 1})
+					k["type"] = keyType
 
-				jobs = append(jobs, job{fmt.Sprintf("DIDTransformer(ctx=%d,base=%v)#%d", nctx, base, i), func() interface{} {
-					// distinct inputs per call: every call gets its own copy of the document
-					rm := &protocol.ResolutionModel{Doc: deepCopyGeneric(map[string]interface{}(doc)).(map[string]interface{}), PublishedOperations: append([]*operation.AnchoredOperation(nil), ops...)}
-					res, e := tr.TransformDocument(rm, protocol.TransformationInfo{"id": did, "published": true})
+					doc := document.Document{"publicKey": []interface{}{k}, "service": []interface{}{cenv.svcJSON(CEnt{i, 1})}}
+					if i == 4 {
+						doc = document.Document{"service": []interface{}{cenv.svcJSON(CEnt{i, 1})}}
+					}
 
-					return []interface{}{res, errStr(e)}
-				}})
+					ops := []*operation.AnchoredOperation{{Type: "update", TransactionTime: uint64(3 - i%3), TransactionNumber: uint64(i), CanonicalReference: fmt.Sprint("c", i)},
+						{Type: "create", TransactionTime: 1, TransactionNumber: uint64(5 - i), CanonicalReference: "c0"}}
 
-				if nctx == 0 {
-					jobs = append(jobs, job{fmt.Sprintf("DocTransformer(base=%v)#%d", base, i), func() interface{} {
+					did := fmt.Sprintf("did:sidetree:doc%d", i)
+
+					jobs = append(jobs, job{fmt.Sprintf("DIDTransformer(ctx=%d,base=%v)#%d", nctx, base, i), func() interface{} {
+						// distinct inputs per call: every call gets its own copy of the document
 						rm := &protocol.ResolutionModel{Doc: deepCopyGeneric(map[string]interface{}(doc)).(map[string]interface{}), PublishedOperations: append([]*operation.AnchoredOperation(nil), ops...)}
-						res, e := dtr.TransformDocument(rm, protocol.TransformationInfo{"id": did, "published": true})
+						res, e := tr.TransformDocument(rm, protocol.TransformationInfo{"id": did, "published": true})
 
 						return []interface{}{res, errStr(e)}
 					}})
+
+					if nctx == 0 {
+						jobs = append(jobs, job{fmt.Sprintf("DocTransformer(base=%v)#%d", base, i), func() interface{} {
+							rm := &protocol.ResolutionModel{Doc: deepCopyGeneric(map[string]interface{}(doc)).(map[string]interface{}), PublishedOperations: append([]*operation.AnchoredOperation(nil), ops...)}
+							res, e := dtr.TransformDocument(rm, protocol.TransformationInfo{"id": did, "published": true})
+
+							return []interface{}{res, errStr(e)}
+						}})
+					}
 				}
 			}
 		}
+
+		// long-form DIDs: create (deterministic), read, resolve
+		for d := 1; d <= 4; d++ {
+			d := d
+
+			jobs = append(jobs, job{fmt.Sprintf("VDR.Create+Read#%d", d), func() interface{} {
+				doc, e := lfDocs[d].build(pool)
+				if e != nil {
+					return "build error"
+				}
+
+				upd := pool.Get("ed", "lf-upd-1").Pub.(ed25519.PublicKey)
+				rec := pool.Get("ed", "lf-rec-1").Pub.(ed25519.PublicKey)
+
+				res, e := vdr.Create(doc, vdrapi.WithOption(sidetreelongform.UpdatePublicKeyOpt, upd), vdrapi.WithOption(sidetreelongform.RecoveryPublicKeyOpt, rec))
+				if e != nil {
+					return "create error"
+				}
+
+				rd, e := vdr.Read(res.DIDDocument.ID)
+				if e != nil {
+					return "read error"
+				}
+
+				rr, e := handler.ResolveDocument(res.DIDDocument.ID)
+				if e != nil {
+					return "resolve error"
+				}
+
+				b, _ := rd.DIDDocument.JSONBytes()
+				md := rr.DocumentMetadata["method"]
+
+				return []interface{}{res.DIDDocument.ID, string(b), rr.Document, md}
+			}})
+		}
+
+		// version provider: lookups by genesis time
+		var versions []protocol.Version
+		for i := uint64(0); i < 4; i++ {
+			versions = append(versions, &common.ProtocolVersion{VersionStr: fmt.Sprint(i, ".0"), P: protocol.Protocol{GenesisTime: i * 10}})
+		}
+
+		vp, _ := verprovider.New(versions)
+
+		for i := uint64(0); i < 5; i++ {
+			i := i
+			jobs = append(jobs, job{fmt.Sprintf("VersionProvider.Get#%d", i), func() interface{} {
+				v, e := vp.Get(i * 10)
+				c, _ := vp.Current()
+
+				if e != nil {
+					return []interface{}{"error", c.Version()}
+				}
+
+				return []interface{}{v.Version(), c.Version()}
+			}})
+		}
+
+		return jobs
 	}
 
-	// long-form DIDs: create (deterministic), read, resolve
-	for d := 1; d <= 4; d++ {
-		d := d
-
-		jobs = append(jobs, job{fmt.Sprintf("VDR.Create+Read#%d", d), func() interface{} {
-			doc, e := lfDocs[d].build(pool)
-			if e != nil {
-				return "build error"
-			}
-
-			upd := pool.Get("ed", "lf-upd-1").Pub.(ed25519.PublicKey)
-			rec := pool.Get("ed", "lf-rec-1").Pub.(ed25519.PublicKey)
-
-			res, e := vdr.Create(doc, vdrapi.WithOption(sidetreelongform.UpdatePublicKeyOpt, upd), vdrapi.WithOption(sidetreelongform.RecoveryPublicKeyOpt, rec))
-			if e != nil {
-				return "create error"
-			}
-
-			rd, e := vdr.Read(res.DIDDocument.ID)
-			if e != nil {
-				return "read error"
-			}
-
-			rr, e := handler.ResolveDocument(res.DIDDocument.ID)
-			if e != nil {
-				return "resolve error"
-			}
-
-			b, _ := rd.DIDDocument.JSONBytes()
-			md := rr.DocumentMetadata["method"]
-
-			return []interface{}{res.DIDDocument.ID, string(b), rr.Document, md}
-		}})
-	}
-
-	// version provider: lookups by genesis time
-	var versions []protocol.Version
-	for i := uint64(0); i < 4; i++ {
-		versions = append(versions, &common.ProtocolVersion{VersionStr: fmt.Sprint(i, ".0"), P: protocol.Protocol{GenesisTime: i * 10}})
-	}
-
-	vp, _ := verprovider.New(versions)
-
-	for i := uint64(0); i < 5; i++ {
-		i := i
-		jobs = append(jobs, job{fmt.Sprintf("VersionProvider.Get#%d", i), func() interface{} {
-			v, e := vp.Get(i * 10)
-			c, _ := vp.Current()
-
-			if e != nil {
-				return []interface{}{"error", c.Version()}
-			}
-
-			return []interface{}{v.Version(), c.Version()}
-		}})
-	}
+	jobs := build()
 
 	// ---- sequential reference
 	want := make([]string, len(jobs))
@@ -481,6 +502,11 @@ func concurrentRun(args []string) {
 
 	for round := 0; round < rounds; round++ {
 		var wg sync.WaitGroup
+
+		// odd rounds: instances nobody has used yet
+		if round%2 == 1 {
+			jobs = build()
+		}
 
 		start := make(chan struct{})
 		kept := make([][]held, g)
@@ -519,6 +545,82 @@ func concurrentRun(args []string) {
 				}
 			}
 		}
+	}
+
+	// ---- one handler, DIDs that share their suffix: the genuine long-form DID and forgeries that carry its suffix
+	// with another initial state; resolved at the same moment by many goroutines, each must get its own answer
+	{
+		handler, herr := dochandler.New("did:ion")
+		vdr, verr := sidetreelongform.New()
+
+		if herr != nil || verr != nil {
+			fatalf("%v %v", herr, verr)
+		}
+
+		upd := pool.Get("ed", "lf-upd-1").Pub.(ed25519.PublicKey)
+		rec := pool.Get("ed", "lf-rec-1").Pub.(ed25519.PublicKey)
+
+		var dids []string
+
+		for d := 1; d <= 2; d++ {
+			doc, _ := lfDocs[d].build(pool)
+
+			res, e := vdr.Create(doc, vdrapi.WithOption(sidetreelongform.UpdatePublicKeyOpt, upd), vdrapi.WithOption(sidetreelongform.RecoveryPublicKeyOpt, rec))
+			if e != nil {
+				fatalf("create: %v", e)
+			}
+
+			dids = append(dids, res.DIDDocument.ID)
+		}
+
+		p1, p2 := strings.Split(dids[0], ":"), strings.Split(dids[1], ":")
+		probes := []string{dids[0], dids[1], strings.Join([]string{"did", "ion", p1[2], p2[3]}, ":"), strings.Join([]string{"did", "ion", p2[2], p1[3]}, ":")}
+		wantP := make([]string, len(probes))
+
+		resolve := func(did string) string {
+			rr, e := handler.ResolveDocument(did)
+			if e != nil {
+				return "error"
+			}
+
+			return digestJSON(rr)
+		}
+
+		for i, did := range probes {
+			wantP[i] = resolve(did)
+		}
+
+		if wantP[0] == "error" || wantP[2] != "error" {
+			fatalf("hot pairs: unexpected sequential results %v", wantP)
+		}
+
+		var wg sync.WaitGroup
+
+		start := make(chan struct{})
+
+		for w := 0; w < g; w++ {
+			wg.Add(1)
+
+			go func(w int) {
+				defer wg.Done()
+				<-start
+
+				for it := 0; it < 300*rounds; it++ {
+					i := (it + w) % len(probes)
+					atomic.AddInt64(&col.nCases, 1)
+
+					if got := resolve(probes[i]); got != wantP[i] {
+						col.report(mismatch{Kind: "concurrent-result", Key: "concurrent-result:ResolveDocument:same-suffix", Case: probes[i],
+							Detail: "DIDs sharing a suffix, resolved at the same time on one handler: a call returned something else than the same call made alone"})
+
+						return
+					}
+				}
+			}(w)
+		}
+
+		close(start)
+		wg.Wait()
 	}
 
 	for _, j := range jobs {
